@@ -206,4 +206,27 @@ func genTls() {
 	m.strs("buildServersDistribution", distLoop, "the listener loop of dataplane.buildServers (range clause, then body statements)")
 	m.strs("upsertListenerBody", dp.stmts(dp.fn("hostPathRules", "upsertListener").Body), "statements of hostPathRules.upsertListener")
 	m.strs("createSSLServerBody", srv.stmts(srv.fn("", "createSSLServer").Body), "statements of createSSLServer")
+
+	// ---- the Secret resolver's cache and the processed BackendTLSPolicies (seeded changes C16-r4m1 / r4m2)
+	m.strs("secretResolveBody", sec.stmts(sec.fn("secretResolver", "resolve").Body), "statements of secretResolver.resolve")
+	btpf := src("internal/mode/static/state/graph/backend_tls_policy.go")
+	var procLoop []string
+	walk(btpf.fn("", "processBackendTLSPolicies").Body, func(n ast.Node) bool {
+		if rs, ok := n.(*ast.RangeStmt); ok && procLoop == nil {
+			procLoop = btpf.stmts(rs.Body)
+			return false
+		}
+		return true
+	})
+	m.strs("processBTPLoop", procLoop, "body of the loop over the policies in processBackendTLSPolicies")
+	// Generate: how the key-pair files are produced
+	var pemLoop []string
+	walk(gen.fn("GeneratorImpl", "Generate").Body, func(n ast.Node) bool {
+		if rs, ok := n.(*ast.RangeStmt); ok && pemLoop == nil && strings.Contains(gen.text(rs.X), "SSLKeyPairs") {
+			pemLoop = append([]string{"for " + gen.text(rs.Key) + ", " + gen.text(rs.Value) + " := range " + gen.text(rs.X)}, gen.stmts(rs.Body)...)
+			return false
+		}
+		return true
+	})
+	m.strs("generateKeyPairLoop", pemLoop, "the loop of Generate over conf.SSLKeyPairs (range clause, then body)")
 }
